@@ -1,6 +1,6 @@
 """Single source for MANIFEST.json (bin/mkmanifest)."""
 
-HOOK_COMMITS = ["cda7a99", "673019b", "625d9ba", "1d37b76", "2f6eef4", "9ec354b"]
+HOOK_COMMITS = ["c99ebf6", "cda7a99", "673019b", "625d9ba", "1d37b76", "2f6eef4", "9ec354b"]
 FIX_COMMITS = ["12c9092", "3e9b6da", "a55c868", "5489af8", "06cfd24", "dc51f1b", "72a27af", "81e61a6", "9f27a11", "fea871f", "23191e8", "7c321f5", "b21055a"]   # filled by bin/mkmanifest callers: /repo commits that add guarded hooks
 
 NOTES = ("All checks: bin/check <id>. Exit 0 = held, 1 = VIOLATION line + replay file, 2 = tool error (never a verdict). "
@@ -185,6 +185,10 @@ CHECKS["C36"] = dict(engine="tlc+vhraft", level="model_checking", ref="4.20", te
 CHECKS["C38"] = dict(engine="tlc+vhraft", level="model_checking", ref="4.20", technique="TLA+ spec CoordSync.tla: local view vs replicated state with each operation's replicated ClusterCommands transcribed from the handlers and the health loop, sync_from_raft transcribed; ideal (every change replicated) and faithful variants model-checked for InSync; TLC-generated operation histories executed through the real REST handlers (warp::test on cluster_routes) of a real single-node Raft coordinator with a loopback mock worker, comparing the coordinator's view before and after sync_from_raft after every operation",
                      text="After every acknowledged operation (register, deregister, heartbeat, deploy, group removal, connector create/update/delete) and every sweep with failover, sync_from_raft must not change the coordinator's projected view; a reverted field is attributed to a recorded finding only when the set of reverted fields and the resulting view equal the faithful model's prediction for that history.",
                      note="Trusted: the mock worker's 2xx answers. Bounded: 2 workers, one group with one pipeline, one connector; histories of 40 (60) operations on 14 (150) fresh single-node Raft clusters; drain / manual migrate / rebalance not driven; the CLI's loop body is mirrored, not executed.")
+
+CHECKS["C37"] = dict(engine="tlc+vhraft", level="exploration", ref="4.20", technique="TLA+ specs ReplModel.tla (leader-based log replication with terms: Agreement, Durable, OneLeaderPerTerm model-checked for 3 nodes; the variant without the vote check is rejected) and ReplLog.tla (trace specification with an inferred global log); traces recorded from a real in-process 3-node cluster (real openraft, real varpulis stores, state machine and HTTP transport) under seeded faults - inbound cut / drop / delay per node, heal, crash and restart on RocksDB - with per-position state digests from hook H10, validated by TLC",
+                     text="Every recorded apply (node, position, term, state digest) must agree with the first report of that position (same term, same state); positions never go backwards within an incarnation; after healing and quiescence every acknowledged write is in every node's state, and nodes at the same position hold the same commands.",
+                     note="Randomised scenarios: 4 (thorough 40) of 30 (60) steps, half on in-memory and half on persistent storage. Faults are per target node, not per direction. Election timeouts of 1.5-3 s are hard-coded, one scenario costs ~15 s.")
 
 NOT_APPLICABLE = {
     "C41": "parser totality over arbitrary strings: no state/transition system to specify; a TLA+ model would only enumerate token strings (fuzzing under another name)",
